@@ -8,24 +8,10 @@ open SqlObjVerif.Ddl
 open SqlObjVerif.PyDdl hiding Str isUpperC
 open SqlObjVerif.PyDdl.Extracted
 
-def idSizeV : IdSize → Val
-  | .none => .none
-  | .tiny => .str [84, 73, 78, 89]
-  | .small => .str [83, 77, 65, 76, 76]
-  | .medium => .str [77, 69, 68, 73, 85, 77]
-  | .big => .str [66, 73, 71]
-
-/-- `soClass.sqlmeta` -/
-def metaV (decl : Decl) (c0 : Val) : Val :=
-  .obj C_SQLObject [("table", .str decl.tableName), ("idName", .str decl.idCol), ("idType", idTypeV decl.idStr),
-    ("idSize", idSizeV decl.idSize),
-    ("columnList", .list (decl.cols.map (colV TX decl.style decl.tableName c0)))]
-
-/-- the class being created, as the connection sees it -/
-def soClassV (decl : Decl) (c0 : Val) : Val := .obj C_SQLObject [("sqlmeta", metaV decl c0)]
+variable {x : ClsX}
 
 @[simp] theorem attrOf_soClassV (I : Iface) (decl : Decl) (c0 : Val) :
-    attrOf I (soClassV decl c0) "sqlmeta" = .ok (metaV decl c0) := rfl
+    attrOf I (soClassV decl c0 x) "sqlmeta" = .ok (metaV decl c0 x) := rfl
 
 macro "ideval" : tactic =>
   `(tactic| pyxc [connCls, metaV, idTypeV, idSizeV, idText, anyEq, attrRes, keyOf, Ddl.Extracted.tables, Ddl.Extracted.idSuffix])
@@ -33,7 +19,7 @@ macro "ideval" : tactic =>
 set_option maxHeartbeats 2000000 in
 /-- `createIDColumn` of the seven connection classes = `idText` -/
 theorem createIDColumn_eq (n : Nat) (d : Dialect) (c : Caps) (decl : Decl) (c0 : Val) :
-    callN prog ddlI (n + 2) (.meth (connCls d) M_createIDColumn) [connV d c, soClassV decl c0] =
+    callN prog ddlI (n + 2) (.meth (connCls d) M_createIDColumn) [connV d c, soClassV decl c0 x] =
       resS (idText TX d decl) := by
   obtain ⟨cn, sty, lid, tbl, idn, ids, sz, cols, ixs, js⟩ := decl
   cases d <;> cases ids <;> cases sz <;> ideval
